@@ -23,6 +23,7 @@ type Obligation struct {
 	Props   []string
 	Hyps    []*Term
 	Goal    *Term
+	Alt     *Term // optional stronger goal tried first
 	NIA     bool
 	Text    string
 	Where   string
@@ -60,6 +61,8 @@ type Engine struct {
 	windows    map[int]*windowInfo
 	tableRegions []*Region
 	eagerPrune   bool
+	aggRegions   map[*AggVal]*Region
+	lastProgress time.Time
 	familyRegs   map[string]*Region
 	deadline     time.Time
 	feasN        int
@@ -78,6 +81,7 @@ type State struct {
 	names   map[string]Value // source-level local names (from DebugRef)
 	cuts    map[string]bool
 	subMemo map[*Term]*Term
+	entrySubst map[string]*Term // rewrite rules known at function entry (restored at a forgetting cut)
 	binds    map[string]int       // number of distinct values bound to a source-level name so far
 	lastBind map[string]ssa.Value
 	visits  map[*ssa.BasicBlock]int // symbolic forks per block on this path (loops without invariant)
@@ -106,6 +110,7 @@ func (s *State) fork() *State {
 	for k := range s.cuts {
 		n.cuts[k] = true
 	}
+	n.entrySubst = s.entrySubst
 	n.binds = make(map[string]int, len(s.binds))
 	for k, v := range s.binds {
 		n.binds[k] = v
@@ -229,7 +234,8 @@ func (s *State) assume(t *Term) {
 	}
 }
 
-// sub applies the state's rewrite rules (memoised until the rule set changes).
+// sub applies the state's rewrite rules (memoised until the rule set changes).  Rules are resolved
+// lazily: the result is rewritten again until it is stable.
 func (s *State) sub(t *Term) *Term {
 	if len(s.subst) == 0 {
 		return t
@@ -237,20 +243,29 @@ func (s *State) sub(t *Term) *Term {
 	if s.subMemo == nil {
 		s.subMemo = map[*Term]*Term{}
 	}
-	return substituteMemo(t, s.subst, s.subMemo)
+	r := substituteMemo(t, s.subst, s.subMemo)
+	for i := 0; i < 4 && r != t; i++ {
+		t = r
+		r = substituteMemo(t, s.subst, s.subMemo)
+	}
+	return r
 }
 
-// addSubst records the rewrite rule lhs -> rhs and keeps the rule set resolved.
+// addSubst records the rewrite rule lhs -> rhs.
 func (s *State) addSubst(lhs, rhs *Term) {
-	s.subMemo = nil
 	rhs = s.sub(rhs)
-	one := map[string]*Term{lhs.Key(): rhs}
-	for k, v := range s.subst {
-		nv := substitute(v, one)
-		if nv != v {
-			s.subst[k] = nv
+	if occurs(lhs, rhs) {
+		return
+	}
+	// keep the defining equation as a hypothesis too: earlier hypotheses may mention lhs
+	if lhs.Sort != SBool {
+		eq := &Term{Op: "=", Sort: SBool, Args: []*Term{lhs, rhs}}
+		if lhs.Sort == rhs.Sort && !s.hypKeys[eq.Key()] {
+			s.hypKeys[eq.Key()] = true
+			s.hyps = append(s.hyps, eq)
 		}
 	}
+	s.subMemo = nil
 	s.subst[lhs.Key()] = rhs
 }
 
@@ -581,8 +596,97 @@ func (e *Engine) sliceElemStore(st *State, s *SliceVal, k *Term, v *Term) {
 
 // ---------------------------------------------------------------------------- obligations
 
+// strengthenPtGoal replaces, in positive positions of a goal, an equality between abstract points by
+// the (sufficient) equality of the coefficients of every base point.
+func strengthenPtGoal(t *Term, pos bool) *Term {
+	switch t.Op {
+	case "not":
+		return mkNot(strengthenPtGoal(t.Args[0], !pos))
+	case "and":
+		args := make([]*Term, len(t.Args))
+		for i, a := range t.Args {
+			args[i] = strengthenPtGoal(a, pos)
+		}
+		return mkAnd(args...)
+	case "=":
+		if pos && len(t.Args) == 2 && t.Args[0].Sort == SPt && t.Args[0].Op != "ite" && t.Args[1].Op != "ite" && sameAtoms(linOf(t.Args[0]), linOf(t.Args[1])) {
+			d := linOf(t.Args[0]).Add(linOf(t.Args[1]).Scale(mkRingConst(SFn, big.NewInt(-1))))
+			var cs []*Term
+			for _, e := range d.sorted() {
+				cs = append(cs, strengthenPtGoal(mkEq(e.coef, mkRingConst(SFn, big0)), true))
+			}
+			return mkAnd(cs...)
+		}
+		if pos && len(t.Args) == 2 && modulusOf(t.Args[0].Sort) != nil {
+			if g := integerSufficient(t); g != nil {
+				return g
+			}
+		}
+	}
+	return t
+}
+
+func sameAtoms(a, b *Lin) bool {
+	if len(a.t) != len(b.t) {
+		return false
+	}
+	for k := range a.t {
+		if _, ok := b.t[k]; !ok {
+			return false
+		}
+	}
+	return true
+}
+
+// integerSufficient: a residue equation  sum c_i * toring(x_i) + c0 == 0  (all x_i integer terms) follows
+// from the corresponding equation over the integers, with coefficients above M/2 read as negative.
+func integerSufficient(t *Term) *Term {
+	if !(t.Args[1].IsConst() && t.Args[1].Val.Sign() == 0) || t.Args[0].Op != "poly" {
+		return nil
+	}
+	p := t.Args[0].P
+	m := modulusOf(p.sort)
+	half := new(big.Int).Rsh(m, 1)
+	if len(p.t) < 3 {
+		return nil
+	}
+	sum := mkInt64(0)
+	for _, e := range p.t {
+		c := new(big.Int).Set(e.c)
+		if c.Cmp(half) > 0 {
+			c.Sub(c, m)
+		}
+		if len(e.m.f) == 0 {
+			sum = mkAdd(sum, mkInt(c))
+			continue
+		}
+		if len(e.m.f) != 1 || e.m.f[0].exp.Cmp(big1) != 0 {
+			return nil
+		}
+		a := e.m.f[0].atom
+		if a.Op != "app" || a.Name != "toring" {
+			return nil
+		}
+		sum = mkAdd(sum, mkScale(a.Args[0], c))
+	}
+	return mkEq(sum, mkInt64(0))
+}
+
 func (e *Engine) addObligation(st *State, fr *Frame, kind, label string, goal *Term, text string) {
 	goal = st.sub(goal)
+	var alt *Term
+	if kind == "cut" || kind == "assert" {
+		goal = strengthenPtGoal(goal, true) // these are assumed afterwards in the strengthened form
+	} else if sg := strengthenPtGoal(goal, true); sg.Key() != goal.Key() {
+		alt = sg // sufficient condition, tried first; the original goal remains the obligation
+	}
+	if goal.Op == "and" && len(goal.Args) > 1 && (kind == "assert" || kind == "cut" || kind == "ensures" || kind == "proves") && !e.concrete {
+		// one obligation per conjunct (smaller queries, sharper reports)
+		for i, g := range goal.Args {
+			e.addObligation(st, fr, kind, fmt.Sprintf("%s.%d", label, i), g, text)
+		}
+		return
+	}
 	if e.concrete {
 		if goal.IsConst() && goal.Val.Sign() == 0 {
 			e.fail("ground evaluation violates %s:%s (%s)", kind, label, text)
@@ -600,7 +704,7 @@ func (e *Engine) addObligation(st *State, fr *Frame, kind, label string, goal *T
 	if n := e.oblNames[name]; n > 1 {
 		name = fmt.Sprintf("%s/path=%d", name, n)
 	}
-	o := &Obligation{Name: name, Kind: kind, Func: e.curFunc, Props: e.curProps, Goal: goal, Text: text, Variant: e.variant}
+	o := &Obligation{Name: name, Kind: kind, Func: e.curFunc, Props: e.curProps, Goal: goal, Alt: alt, Text: text, Variant: e.variant}
 	if fr != nil && fr.contract != nil {
 		o.NIA = fr.contract.NIA
 		o.Timeout = fr.contract.Timeout
@@ -1238,6 +1342,10 @@ func (e *Engine) execFrom(st *State, fr *Frame, b *ssa.BasicBlock, prev *ssa.Bas
 		if e.steps > e.maxSteps {
 			e.fail("step budget exceeded in %s", fr.fn)
 		}
+		if e.steps%64 == 0 && os.Getenv("VCGO_PROGRESS") != "" && time.Since(e.lastProgress) > 5*time.Second {
+			e.lastProgress = time.Now()
+			fmt.Fprintf(os.Stderr, "[progress] %s steps=%d obligations=%d feas=%d hyps=%d block=%d\n", e.curFunc, e.steps, len(e.obls), e.feasN, len(st.hyps), b.Index)
+		}
 		if e.steps%256 == 0 && !e.deadline.IsZero() && time.Now().After(e.deadline) {
 			e.deadline = time.Time{}
 			e.fail("time budget for symbolic execution exceeded in %s", fr.fn)
@@ -1355,6 +1463,25 @@ func (e *Engine) execFrom(st *State, fr *Frame, b *ssa.BasicBlock, prev *ssa.Bas
 			default:
 				e.execInstr(st, fr, in)
 				if v, ok := in.(ssa.Value); ok {
+					if sp, ok := fr.vals[v].(*splitPtr); ok {
+						// pointer to an element of an array of aggregates at a symbolic index: case split
+						var out []Exit
+						for j := int64(0); j < sp.n; j++ {
+							c := st.sub(mkEq(sp.idx, mkInt64(j)))
+							if knownFalse(st, c) {
+								continue
+							}
+							sj := st.fork()
+							fj := fr.fork()
+							sj.assume(c)
+							if sj.infeasible() {
+								continue
+							}
+							fj.vals[v] = &PtrVal{reg: sp.base.reg, path: extend(sp.base.path, int(j)), typ: sp.typ}
+							out = append(out, e.guarded(sj, func() []Exit { return e.execFrom(sj, fj, b, prev, idx+1) })...)
+						}
+						return out
+					}
 					if fl, ok := fr.vals[v].(*forkLoad); ok {
 						st2 := st.fork()
 						fr2 := fr.fork()
